@@ -146,7 +146,8 @@ def compare(sim, gen, ref, run, label):
         where = run.error.split(":")[0]
         st = run.step_statuses or {}
         cancelled = sorted(n for n, v in st.items() if v == "CANCELLED")
-        if where == "WorkflowExecutionException" and cancelled and not any(v == "FAILED" for v in st.values()) and not sim.errors:
+        if where == "WorkflowExecutionException" and cancelled and not any(v == "FAILED" for v in st.values()) and \
+                all("closed database" in str(e[-1]) for e in sim.errors):   # (what a cancelled step logs when its write arrives after the close)
             # no step failed and nothing was logged as an error: the executor closed (cancelling what was still running)
             # when the output ports terminated and then counted the CANCELLED steps as a failure (listed defect)
             where = "no_step_failed_only_cancelled_steps"
